@@ -89,6 +89,7 @@ class RefCache:
         self.misses = 0
         self.seq = 0             # logical op counter for policy keys
         self.win = (0.0, 0.0)    # clock-read window of the current op
+        self.last_now = 0.0
         self.culling = False     # did the current op run the lazy cull?
         self.explicit_cull = False
 
@@ -99,6 +100,7 @@ class RefCache:
         self.explicit_cull = False
         self.reads = tuple(reads)
         if reads:
+            self.last_now = reads[-1]
             self.win = (reads[0], reads[-1])
             t0, t1 = self.win
             if t0 != t1:
@@ -110,7 +112,8 @@ class RefCache:
 
     @property
     def now(self):
-        return self.win[0]
+        # a call that read no clock decides nothing by time; fall back to the last instant seen
+        return self.win[0] if self.win else self.last_now
 
     def live(self, it):
         return it.expire is None or it.expire > self.now
